@@ -47,10 +47,10 @@ class Scenario:
 
     # ---------------------------------------------------------------- witnesses / inputs
     def randn(self, *shape, scale=1.0):
-        return torch.randn(*shape, generator=self.gen, dtype=torch.float64) * scale
+        return torch.randn(tuple(shape), generator=self.gen, dtype=torch.float64) * scale
 
     def rand(self, *shape, lo=0.0, hi=1.0):
-        return torch.rand(*shape, generator=self.gen, dtype=torch.float64) * (hi - lo) + lo
+        return torch.rand(tuple(shape), generator=self.gen, dtype=torch.float64) * (hi - lo) + lo
 
     def scalar(self, name, default, **kw):
         v = float(self.overrides.get(name, default))
